@@ -220,3 +220,13 @@ Section Episodes.
     exact (mask_iff_not_played rc rows cols nm locs acts r c ltac:(lia) Hc V F Hr Hc').
   Qed.
 End Episodes.
+
+(* C10 on the translated reset: the state handed out after the generator call is the generator's state, and for a valid draw it is
+   physically consistent *)
+Lemma src_reset_wellformed rows cols nm locs : 0 <= rows -> 0 <= cols -> M.valid_draw rows cols nm locs = true ->
+  let s0 := fst (reset_from nm (mkState (repeat (repeat (-1) (Z.to_nat cols)) (Z.to_nat rows)) 0 locs)) in
+  Phys rows cols nm (conv s0) /\ s_flat_mine_locations s0 = locs /\ first_ok 1 (snd (reset_from nm (mkState (repeat (repeat (-1) (Z.to_nat cols)) (Z.to_nat rows)) 0 locs))) = true.
+Proof.
+  intros Hr Hc V. cbv zeta. destruct (reset_src rows cols nm locs) as [E0 E1]. cbv zeta in E0, E1. rewrite E0, E1.
+  split; [exact (init_Phys rows cols nm locs Hr Hc V)|]. split; reflexivity.
+Qed.
